@@ -105,3 +105,88 @@ Proof.
   repeat (apply Forall_cons; [cbn [op_ok]; first [exact I | discriminate | (split; [discriminate | intros h [<-|[<-|[]]]; discriminate])]|]).
   apply Forall_nil.
 Qed.
+
+(* ------------------------------------------------------------------------------------------
+   The executable checker c08_ok (run/Run_TableCheck.v), which is what is evaluated on the
+   dumps of the REAL routing table, versus the model the theorems above are about. *)
+From BT Require Import run.Run_Table run.Run_TableCheck proofs.Checker_Table_Facts.
+
+(* completeness on the model: on the model's own observations the checker never raises an alarm
+   -- neither the shape clause of any dump nor any of the nine transition clauses of a
+   Dump ; Offer ; Dump  triple, through every chain of bucket splits -- for every local id and every
+   script in which the router addresses come first and no offered or named address is the
+   placeholder 127.0.0.1:0 of empty slots (what the generators emit) *)
+Theorem c08_checker_accepts_model : forall (local : N) (ops : list rtop),
+  routers_first ops && forallb rtop_okb ops = true ->
+  c08_ok local ops (model_obs local ops) = None.
+Proof. exact c08_ok_model_silent. Qed.
+
+(* soundness: whenever the checker accepts a trace, there is an observation for every operation;
+   every observed dump has between 1 and 160 buckets of 8 slots, lists no (id, address) live
+   twice, and every live slot is not the local id, not a router address (routers_before: the
+   addresses announced so far) and sits in the bucket of its shared-prefix length (the last bucket
+   takes all longer prefixes) ... *)
+Theorem c08_checker_sound_shape : forall (local : N) (ops : list rtop) (obs : list rtobs),
+  c08_ok local ops obs = None ->
+  (length ops <= length obs)%nat /\
+  forall k t d, nth_error ops k = Some (TDump t) -> nth_error obs k = Some (ObDump d) ->
+    (1 <= length d <= 160)%nat
+    /\ (forall b, In b d -> length b = 8%nat)
+    /\ NoDup (map hd_s (live_of d))
+    /\ (forall i b s, nth_error d i = Some b -> In s b -> is_live s = true ->
+          id_of s <> local
+          /\ ~ In (addr_of s) (routers_before ops k)
+          /\ ((i < length d - 1)%nat -> lcp local (id_of s) = i)
+          /\ ((length d - 1 <= i)%nat -> (length d - 1 <= lcp local (id_of s))%nat)).
+Proof. exact c08_ok_sound_shape. Qed.
+
+(* ... and every  Dump ; Offer(good, id, a) ; Dump  triple taken at one instant (d before, d' after)
+   obeys the nine transition clauses *)
+Theorem c08_checker_sound_offer : forall (local : N) (ops : list rtop) (obs : list rtobs),
+  c08_ok local ops obs = None ->
+  forall k t good id a d d',
+    nth_error ops k = Some (TDump t) -> nth_error ops (S k) = Some (TOffer t good id a) ->
+    nth_error ops (S (S k)) = Some (TDump t) ->
+    nth_error obs k = Some (ObDump d) -> nth_error obs (S (S k)) = Some (ObDump d') ->
+    let routers := routers_before ops k in
+    let ns : N := if good then 2%N else 1%N in
+    let B := live_of d in
+    let A := live_of d' in
+    let lost := filter (fun s => negb (existsb (same_h s) A)) B in
+    let len := length d in
+    let idx := if Nat.ltb (lcp local id) len then lcp local id else (len - 1)%nat in
+    let tb := nth idx d [] in
+    (* 1: at most one node is lost *)
+    (length lost <= 1)%nat
+    (* 2: a lost node is strictly worse than the newcomer *)
+    /\ (forall s, In s B -> ~ In (hd_s s) (map hd_s A) -> (st_of s < ns)%N)
+    (* 3: the bucket of a lost node had no free / bad slot *)
+    /\ (forall s, In s B -> ~ In (hd_s s) (map hd_s A) ->
+          forall b, In b d -> In (hd_s s) (map hd_s (filter is_live b)) ->
+          forall s', In s' b -> is_live s' = true)
+    (* 4: nobody else changes standing *)
+    /\ (forall s, In s B -> hd_s s <> (id, a) ->
+          (forall s', List.find (same_h s) A = Some s' -> st_of s' = st_of s)
+          /\ (List.find (same_h s) A = None -> ~ In (hd_s s) (map hd_s A)))
+    (* 5: nobody but the offered handle appears *)
+    /\ (forall s, In s A -> hd_s s <> (id, a) -> In (hd_s s) (map hd_s B))
+    (* 6: an inadmissible offer (own id, router address) changes nothing *)
+    /\ (id = local \/ In a routers -> d = d')
+    (* 7: a repeated offer loses nobody and never lowers the standing *)
+    /\ (In (id, a) (map hd_s B) ->
+          length lost = 0%nat
+          /\ exists s s', List.find (same_h (ns, id, a)) B = Some s
+                          /\ List.find (same_h (ns, id, a)) A = Some s'
+                          /\ (st_of s <= st_of s')%N)
+    (* 8: a full bucket of good nodes that cannot be split rejects a newcomer *)
+    /\ (id <> local -> ~ In a routers -> ~ In (id, a) (map hd_s B) ->
+          (forall s, In s tb -> st_of s = 2%N) -> can_split len idx = false -> d = d')
+    (* 9: room or a worse node in the target bucket: the newcomer is accepted, with its standing *)
+    /\ (id <> local -> ~ In a routers -> ~ In (id, a) (map hd_s B) ->
+          (exists s, In s tb /\ (st_of s < ns)%N) ->
+          exists s, In s A /\ hd_s s = (id, a) /\ st_of s = ns).
+Proof. exact c08_ok_sound_offer. Qed.
+
+Print Assumptions c08_checker_accepts_model.
+Print Assumptions c08_checker_sound_shape.
+Print Assumptions c08_checker_sound_offer.
